@@ -94,7 +94,8 @@ def run(chk):
         "evaluate it on creation (a Python generator expression does) -- both placements of its effects are accepted and counted",
         "no claim (filtered, counted): setx inside a comprehension form in a class body and setx inside an iterable "
         "(CPython forbids both), setx to a variable of the form itself, a first clause that is not an iteration clause and "
-        "reads a name that is also a variable of the form, `for` whose first clause is not an iteration clause",
+        "reads a name that is also a variable of the form, `for` without an iteration clause, for/else with an :if in "
+        "front of the outermost iteration clause",
         "inside a class body a comprehension form sees module-level names only (as a Python comprehension does)",
     ]
     chk.matchers[M_LEADING_IF] = m_leading_if
